@@ -795,6 +795,7 @@ def mon_C11(t):
 def mon_C13(t):
     out = []
     shut_done = False
+    worker_pt = False       # the worker is stopped at a schedule point (window schedules): it has not finished its step
     for i, r in enumerate(t.recs):
         if r["skipped"]:
             continue
@@ -811,7 +812,9 @@ def mon_C13(t):
             call = p[2:] if p[0] == "call" else t.pending_call(i)
             if call and call[0] == "shutdown":
                 shut_done = True
-        if r["roles"]["worker"] == "draining" and any(a == 0 for a in r["acks"]):
+        at_point = p[0] in ("workerp", "runw") and r["ret"] and r["ret"][0] == 7
+        worker_pt = at_point if p[0] in ("workerp", "runw") else worker_pt
+        if r["roles"]["worker"] in ("draining", "exited") and not worker_pt and any(a == 0 for a in r["acks"]):
             out.append(fail(t, i, "ack-pending-after-shutdown-executed", "acknowledgements %s still pending although the worker has executed Shutdown" % [a for a, s in enumerate(r["acks"]) if s == 0]))
     return out
 
